@@ -751,14 +751,32 @@ func quoteName(r *rng.R, s string) string {
 }
 
 func renderToks(r *rng.R, ts []ptok) string {
+	s, _ := renderToksOff(r, ts, rtOpts{})
+	return s
+}
+
+// rtOpts: tight = no space around a `|` now and then (`svc:x|fields a`); comments = a `#` comment line
+// (holding `|`, quotes) instead of the space between two tokens now and then
+type rtOpts struct{ tight, comments bool }
+
+// renderToksOff also returns the byte offsets (within the rendered text) of the bar tokens
+func renderToksOff(r *rng.R, ts []ptok, o rtOpts) (string, []int) {
 	var sb strings.Builder
+	var bars []int
 	for i, t := range ts {
 		sp := " "
 		if r.Chance(1, 6) {
 			sp = "  "
 		}
+		if o.comments && r.Chance(1, 6) {
+			sp = rng.Pick(r, []string{" # c|d\n", "#|\n", " # \" | fields zz '\n ", "\t# `|\n\n"})
+		}
+		if o.tight && (t.kind == "bar" || i > 0 && ts[i-1].kind == "bar") && r.Bool() {
+			sp = ""
+		}
 		switch t.kind {
 		case "bar":
+			bars = append(bars, sb.Len()+len(sp))
 			sb.WriteString(sp + "|")
 		case "fields":
 			kw := "fields"
@@ -788,7 +806,7 @@ func renderToks(r *rng.R, ts []ptok) string {
 			sb.WriteString(sp + t.name)
 		}
 	}
-	return sb.String()
+	return sb.String(), bars
 }
 
 func toksCoq(m *ids, ts []ptok) string {
@@ -972,6 +990,227 @@ func referencePipe(ts []ptok) *search.FetchFieldsFilter {
 	return &pipes[0]
 }
 
+// ---------------------------------------------------------------- stream: pipe-text (lexical level)
+
+// lexValue writes one filter value: bare, double-/single-quoted with escapes, or a raw string; most hold a `|`
+// (also next to an escaped quote, behind an escaped backslash, as ` | fields y`). forStore = the text also
+// goes through gRPC and the stores' parser: valid UTF-8, no wildcard.
+func lexValue(r *rng.R, cnt func(string), forStore bool) string {
+	common := []string{"a", "b7", "x.y", " ", "|", "|", " | fields y", "|fields z", "#", "# c", "é", ",", ":", "(", ")", "| fields except q"}
+	n := r.Range(1, 4)
+	var pool []string
+	var open, cl, kind string
+	switch r.Intn(7) {
+	case 0:
+		cnt("lex-value:bare")
+		return rng.Pick(r, []string{"x", "v1", "a.b", "err"})
+	case 1, 2, 3:
+		kind, open, cl = "dq", `"`, `"`
+		pool = append(append([]string{}, common...), `\"`, `\\`, `\n`, `\x41`, `é`, `\101`, `'`, "`", `\"|`, `|\"`, `\\|`, `|\\`)
+		if !forStore {
+			pool = append(pool, `\q`, `\*`, "*", "\xff", `\x4`, `\'`)
+		}
+	case 4, 5:
+		kind, open, cl = "sq", "'", "'"
+		pool = append(append([]string{}, common...), `\'`, `\\`, `\t`, `"`, "`", `\'|`, `|\'`, `\\|`, `|\\`)
+		if !forStore {
+			pool = append(pool, `\q`, `\*`, "*", "\xfe", `\"`)
+		}
+	default:
+		kind, open, cl = "raw", "`", "`"
+		pool = append(append([]string{}, common...), `\`, `"`, `'`, `\"`, `|\`, `\|`)
+	}
+	body := "v"
+	for i := 0; i < n; i++ {
+		body += rng.Pick(r, pool)
+	}
+	if r.Chance(4, 5) && !strings.Contains(body, "|") {
+		body += "|"
+	}
+	if kind == "raw" && r.Chance(1, 4) {
+		body += `\` // a backslash right before the closing back-quote escapes nothing
+	}
+	if kind != "raw" && r.Chance(1, 4) {
+		body += `\\` // an escaped backslash right before the closing quote
+	}
+	if strings.Contains(body, "|") {
+		cnt("lex-value:" + kind + "-with-bar")
+	} else {
+		cnt("lex-value:" + kind)
+	}
+	return open + body + cl
+}
+
+func lexComment(r *rng.R, cnt func(string)) string {
+	n := r.Range(0, 3)
+	c := "#"
+	for i := 0; i < n; i++ {
+		c += rng.Pick(r, []string{" c|d", " \"", " '", " `", " | fields q", "|", " errors|warnings", "#", "\\"})
+	}
+	if strings.Contains(c, "|") {
+		cnt("lex-comment:with-bar")
+	} else {
+		cnt("lex-comment")
+	}
+	return c + "\n"
+}
+
+// lexExpr writes a search expression that parses, built from terms field:value joined by and/or, with not,
+// parentheses and comment lines. It contains no top-level `|` and is lexically closed (every quote has its
+// partner, every comment its newline). all = the expression selects every document (for the real cluster).
+func lexExpr(r *rng.R, cnt func(string), forStore, all bool) string {
+	field := func() string {
+		if forStore {
+			return "svc"
+		}
+		return rng.Pick(r, []string{"svc", "message", "k8s_pod", "a.b", "level"})
+	}
+	term := func() string {
+		t := field() + ":" + lexValue(r, cnt, forStore)
+		if r.Chance(1, 5) {
+			t = "not " + t
+		}
+		return t
+	}
+	group := func() string {
+		n := r.Range(1, 3)
+		var sb strings.Builder
+		for i := 0; i < n; i++ {
+			if i > 0 {
+				sb.WriteString(rng.Pick(r, []string{" and ", " or ", " AND ", "\tor\n"}))
+			}
+			if r.Chance(1, 6) {
+				sb.WriteString(lexComment(r, cnt))
+			}
+			if r.Chance(1, 5) {
+				sb.WriteString("(" + term() + rng.Pick(r, []string{" or ", " and "}) + term() + ")")
+			} else {
+				sb.WriteString(term())
+			}
+		}
+		return sb.String()
+	}
+	var e string
+	switch {
+	case all && r.Bool():
+		e = "* or " + group()
+	case all && r.Bool():
+		e = group() + " or *"
+	case all:
+		// no stored document has svc equal to one of these values: every negated term holds for all
+		e = "not " + field() + ":" + lexValue(r, cnt, forStore)
+		if r.Bool() {
+			e += " and not " + field() + ":" + lexValue(r, cnt, forStore)
+		}
+	case r.Chance(1, 8):
+		e = "* or " + group()
+	default:
+		e = group()
+	}
+	if r.Chance(1, 4) {
+		e = lexComment(r, cnt) + e
+	}
+	if r.Chance(1, 5) {
+		e += " " + lexComment(r, cnt)
+	}
+	return e
+}
+
+func pipeTextCase(w *casefile.Writer, q string, valid bool, bars []int, ts []ptok, barTok []int, want *search.FetchFieldsFilter, kind string, nontrivial bool) {
+	parse := func(q string) (got search.FetchFieldsFilter, pan any) {
+		defer func() { pan = recover() }()
+		return search.VerifC20TryParseFieldsFilter(q), nil
+	}
+	in := map[string]any{"query": q, "kind": kind, "text": true}
+	got, pan := parse(q)
+	var star search.FetchFieldsFilter
+	if pan == nil && len(bars) > 0 {
+		star, pan = parse("*" + q[bars[0]:])
+	}
+	if pan != nil {
+		w.Violate("panic:pipe", fmt.Sprintf("tryParseFieldsFilter panics: %v", pan), in)
+		return
+	}
+	m := newIDs()
+	tails := make([]string, len(bars))
+	for i, off := range bars {
+		tails[i] = fmt.Sprintf("(%d, %s)", off, toksCoq(m, ts[barTok[i]:]))
+	}
+	wterm := "None"
+	if want != nil {
+		wterm = "(Some " + pfCoq(m, want.Fields, want.AllowList) + ")"
+	}
+	w.Count("pipetext-kind:" + kind)
+	w.Add(fmt.Sprintf("CPipeText %s %s [%s] %s %s %s", casefile.Bytes([]byte(q)), casefile.Bool(valid), strings.Join(tails, "; "), wterm,
+		pfCoq(m, got.Fields, got.AllowList), pfCoq(m, star.Fields, star.AllowList)),
+		"pipe-text", nontrivial, in, map[string]any{"fields": got.Fields, "allow_list": got.AllowList, "star_fields": star.Fields, "star_allow_list": star.AllowList})
+}
+
+// streamPipeText: the real tryParseFieldsFilter on query TEXTS whose search expression holds `|` bytes inside
+// quoted values (three quote kinds, escapes) and comments; the model scans the same bytes (ModelLex.pipe_start).
+func streamPipeText(w *casefile.Writer, r *rng.R, n int) {
+	cnt := w.Count
+	emit := func(e string, valid bool, ts []ptok, want *search.FetchFieldsFilter, kind string, o rtOpts, suffix string) {
+		p, off := renderToksOff(r, ts, o)
+		bars := make([]int, len(off))
+		var barTok []int
+		for i, t := range ts {
+			if t.kind == "bar" {
+				barTok = append(barTok, i)
+			}
+		}
+		for i := range off {
+			bars[i] = len(e) + off[i]
+		}
+		pipeTextCase(w, e+p+suffix, valid, bars, ts, barTok, want, kind, want != nil && strings.Contains(e, "|"))
+	}
+	for i := 0; i < n; i++ {
+		e := lexExpr(r, cnt, false, false)
+		o := rtOpts{tight: r.Chance(1, 3), comments: r.Chance(1, 3)}
+		suffix := ""
+		if r.Chance(1, 4) { // a comment behind the pipe section, with or without its newline
+			suffix = rng.Pick(r, []string{" # tail | fields y", " # tail | fields y\n", "#|", "\n# \"|\n"})
+		}
+		switch r.Intn(10) {
+		case 0:
+			emit(e, true, nil, nil, "no-pipe", o, suffix)
+		case 1, 2, 3, 4:
+			names, ex := randNames(r), r.Bool()
+			emit(e, true, wellFormedPipe(r, names, ex), &search.FetchFieldsFilter{Fields: names, AllowList: !ex}, "one-pipe", o, suffix)
+		case 5:
+			ts := append(wellFormedPipe(r, randNames(r), r.Bool()), wellFormedPipe(r, randNames(r), r.Bool())...)
+			emit(e, true, ts, nil, "two-pipes", o, suffix)
+		case 6: // the expression does not parse although every quoted value and comment in it is closed
+			names, ex := randNames(r), r.Bool()
+			bad := rng.Pick(r, []string{"(" + e, e + " and", e + " or or svc:x", `"a|b" ` + e, e + " )", e + " svc:"})
+			if strings.HasSuffix(e, "\n") { // e ends in a comment line
+				bad = "(" + e
+			}
+			emit(bad, false, wellFormedPipe(r, names, ex), nil, "invalid-expr", o, suffix)
+		case 7: // lexically unclosed: the pipe is swallowed by a comment without newline / follows a quote without partner
+			if r.Bool() {
+				p, _ := renderToksOff(r, wellFormedPipe(r, randNames(r), r.Bool()), rtOpts{})
+				pipeTextCase(w, e+rng.Pick(r, []string{" # note", "# a|b", " #"})+p, true, nil, nil, nil, nil, "unclosed-comment", false)
+			} else {
+				qt := rng.Pick(r, []string{`"`, "'", "`"})
+				if strings.HasSuffix(e, "\n") {
+					e = "svc:x"
+				}
+				head := e + " and svc:" + qt + "a"
+				ts := wellFormedPipe(r, []string{"lvl", "ts"}, r.Bool())
+				p := " | fields lvl, ts"
+				if ts[2].kind == "except" {
+					p = " | fields except lvl, ts"
+				}
+				pipeTextCase(w, head+p, false, []int{len(head) + 1}, ts, []int{0}, nil, "unclosed-quote", false)
+			}
+		default:
+			ts := randPipeToks(r)
+			emit(e, true, ts, referencePipe(ts), "random-tokens", o, suffix)
+		}
+	}
+}
+
 // ---------------------------------------------------------------- stream: page (real cluster)
 
 type cluster struct {
@@ -1080,7 +1319,7 @@ func pipeText(r *rng.R, fields []string, allow bool) string {
 	return renderToks(r, wellFormedPipe(r, fields, !allow))
 }
 
-func streamPage(w *casefile.Writer, r *rng.R, rounds, docsPerRound, queries int) {
+func streamPage(w *casefile.Writer, r *rng.R, rl *rng.R, rounds, docsPerRound, queries, lexQueries int) {
 	conf.UseSeqQLByDefault = true // flag --use-seq-ql-by-default: pipes exist in SeqQL only
 	for round := 0; round < rounds; round++ {
 		c := startCluster(2 + round%2) // 2 or 3 shards: a fetch goes to several sources
@@ -1186,8 +1425,68 @@ func streamPage(w *casefile.Writer, r *rng.R, rounds, docsPerRound, queries int)
 				}
 				pageCase(w, via, plain, got, fields, allow, in)
 			}
+			// the lexical level, end to end: Ingestor.Search (real proxy, real stores' GrpcV1.Fetch) with a search
+			// expression that selects every document and holds `|` bytes inside quoted values / comments, then a
+			// fields pipe; the unfiltered run is the same expression without the pipe. (sealed fraction)
+			fixed := []string{
+				"not svc:\"a|b\"", "not svc:'out=0|0.0Mb' and not svc:x", "not svc:`a|b` or *",
+				"# errors|warnings of the service\n*", "* or svc:\"a\\\"|b\"", "not svc:'it\\'s|'", "* or svc:\"v\\\\\"",
+				"not svc:\"a | fields time\"", "* # all | fields time\n",
+			}
+			for qi := 0; qi < len(fixed)+lexQueries; qi++ {
+				var e, kind string
+				if qi < len(fixed) {
+					e, kind = fixed[qi], "lex-fixed"
+				} else {
+					e, kind = lexExpr(rl, w.Count, true, true), "lex-random"
+				}
+				fields, fkind := genFilter(rl, present, pool)
+				if len(fields) == 0 {
+					fields = []string{rng.Pick(rl, present)}
+				}
+				allow := rl.Bool()
+				size := rl.Range(1, docsPerRound+2)
+				offset := rl.Intn(docsPerRound/2 + 1)
+				order := seq.DocsOrderDesc
+				if rl.Bool() {
+					order = seq.DocsOrderAsc
+				}
+				p, _ := renderToksOff(rl, wellFormedPipe(rl, fields, !allow), rtOpts{tight: rl.Chance(1, 3), comments: rl.Chance(1, 4)})
+				if rl.Chance(1, 4) {
+					p += rng.Pick(rl, []string{" # tail | fields y", " # tail | fields y\n", "#|"})
+				}
+				q := e + p
+				in := map[string]any{"kind": kind + "/" + fkind, "size": size, "offset": offset, "order": int(order), "stored": batchStrings(docs),
+					"sealed": true, "shards": c.shards, "via": "page-search-lex", "query": q, "expr": e}
+				plain, got, err := c.observeLex(e, q, size, offset, order)
+				if err != nil {
+					w.Violate("page:error", err.Error(), in)
+					continue
+				}
+				w.Count("page-lex:" + kind)
+				if strings.Contains(e, "|") {
+					w.Count("page-lex:bar-inside-expression")
+				}
+				pageCase(w, "page-search-lex", plain, got, fields, allow, in)
+			}
 		}()
 	}
+}
+
+// observeLex: Ingestor.Search(e) vs Ingestor.Search(e + pipe) on the real cluster
+func (c *cluster) observeLex(e, q string, size, offset int, order seq.DocsOrder) ([][]byte, [][]byte, error) {
+	_, plain, _, err := c.env.Search(e, size, setup.WithOffset(offset), setup.WithOrder(order))
+	if err != nil {
+		return nil, nil, fmt.Errorf("search without pipe failed (%q): %w", e, err)
+	}
+	if len(plain) == 0 {
+		return nil, nil, fmt.Errorf("search without pipe returned no document (%q)", e)
+	}
+	_, got, _, err := c.env.Search(q, size, setup.WithOffset(offset), setup.WithOrder(order))
+	if err != nil {
+		return nil, nil, fmt.Errorf("search with fields pipe failed (%q): %w", q, err)
+	}
+	return plain, got, nil
 }
 
 // observe returns the documents of the unfiltered run and of the filtered run, each in its order.
@@ -1990,8 +2289,10 @@ func main() {
 	}
 	r := rng.New(*seed)
 	nFilter, nDup, nPipe, nReq, rounds, perRound, queries, concIters := 5000, 1200, 1500, 600, 2, 24, 40, 300
+	nPipeText, lexQueries := 1500, 16
 	if *tier == "thorough" {
 		nFilter, nDup, nPipe, nReq, rounds, perRound, queries, concIters = 120000, 12000, 20000, 8000, 8, 60, 120, 1500
+		nPipeText, lexQueries = 20000, 80
 	}
 	// first, while the filter pool of this process is still empty: the pool discipline (deterministic)
 	streamPool(w, *seed, 4)
@@ -2006,7 +2307,9 @@ func main() {
 	streamDup(w, r.Fork(), nDup, "dupkeys-", false)
 	streamPipe(w, r.Fork(), nPipe)
 	streamReq(w, r.Fork(), nReq)
-	streamPage(w, r.Fork(), rounds, perRound, queries)
+	rPage := r.Fork()
+	streamPage(w, rPage, rng.New(*seed^0xC20E), rounds, perRound, queries, lexQueries)
+	streamPipeText(w, rng.New(*seed^0xC20F), nPipeText)
 	streamConcurrent(w, *seed, concIters)
 	if err := w.Close(); err != nil {
 		panic(err)
@@ -2112,7 +2415,16 @@ func doReplay(w *casefile.Writer, path string) {
 		via, _ := in["via"].(string)
 		q, _ := in["query"].(string)
 		num := func(k string) int { f, _ := in[k].(float64); return int(f) }
-		plain, got, err := c.observe(via, q, fields, allow, num("size"), num("offset"), seq.DocsOrder(num("order")))
+		var plain, got [][]byte
+		var err error
+		if via == "page-search-lex" {
+			e, _ := in["expr"].(string)
+			plain, got, err = c.observeLex(e, q, num("size"), num("offset"), seq.DocsOrder(num("order")))
+			ff := search.VerifC20TryParseFieldsFilter(q)
+			fmt.Printf("replay Ingestor.Search(%q): tryParseFieldsFilter of the whole text = fields %q allow_list=%v\n", q, ff.Fields, ff.AllowList)
+		} else {
+			plain, got, err = c.observe(via, q, fields, allow, num("size"), num("offset"), seq.DocsOrder(num("order")))
+		}
 		if err != nil {
 			fmt.Println("replay:", err)
 			return
